@@ -208,6 +208,18 @@ def check_doc(c, d, res, node=None, derive=True):
 
             call("c09.block_range", ex, do_br, None if br is None else (*br[:5], jkey(br[5].j)))
             if p == q:
+                # the same position as a DISTINCT object (resolved without the cache): equality is by position
+                Lf = adapters.pm_model.ResolvedPos.resolve(node, p)
+
+                def do_br_f():
+                    x = L.block_range(Lf)
+                    if x is None:
+                        return None
+                    return (x.depth, x.start, x.end, x.start_index, x.end_index, nj(x.parent))
+
+                call("c09.block_range.equal-object", ex, do_br_f, None if br is None else (*br[:5], jkey(br[5].j)))
+                call("c09.same_parent.equal-object", ex, lambda: L.same_parent(Lf), True)
+                call("c09.min.equal-object", ex, lambda: (L.min(Lf).pos, L.max(Lf).pos), (p, p))
                 br1 = ref.block_range(r, r)
                 call("c09.block_range.single", ex,
                      lambda: (None if (x := L.block_range()) is None else (x.depth, x.start, x.end)),
